@@ -210,6 +210,41 @@ def ascending_sort(chk, rule, fi, what):
     return ok, n
 
 
+def first_match_comprehension(chk, rule, get):
+    """get_rule written as  next((rule for (low, high), rule in lookup.items() if low <= supply < high), None)"""
+    prog = chk.program
+    name = get.qual
+    outs = Interp(prog, get).run()
+    chk.count(len(outs))
+    sup = ("sym", get.params()[0])
+    if len(outs) != 1 or outs[0].kind != "return":
+        chk.undecided(rule, name, "get_rule is neither a single loop nor a single first-match expression", node=get.node)
+        return
+    t = strip_sites(outs[0].value)
+    if not (t[0] == "call" and t[1] == ("glob", "ext:builtins.next") and t[2] and t[2][0][0] == "comp" and len(t[2][0][3]) == 1):
+        chk.undecided(rule, name, "get_rule idiom not recognised: %s" % show(t), node=get.node)
+        return
+    comp = t[2][0]
+    target, src, conds = comp[3][0]
+    if not (target[0] == "tuple" and len(target[1]) == 2 and target[1][0][0] == "tuple" and len(target[1][0][1]) == 2):
+        chk.undecided(rule, name, "comprehension target is not ((low, high), rule)", node=get.node)
+        return
+    (low, high), rl = target[1][0][1], target[1][1]
+    if comp[2] != rl:
+        chk.bad(rule, name, "the selected value %s is not the rule stored under the matching range" % show(comp[2]), node=get.node, stmt="wrong-rule")
+        return
+    flat = []
+    for c in conds:
+        flat.extend(c[2] if c[0] == "boolop" and c[1] == "and" else [c])
+    want = {("cmp", "<=", low, sup), ("cmp", "<", sup, high)}
+    if set(flat) == want:
+        chk.ok(rule, name, "first match of the half-open range predicate low <= supply < high over the lookup items", node=get.node)
+    else:
+        got = sorted(show(c) for c in flat)
+        msg = "range predicate is %s (required: low <= supply < high, half-open)" % " and ".join(got)
+        chk.bad(rule, name, msg, node=get.node, stmt="range-predicate")
+
+
 def stepwise(chk):
     prog = chk.program
     rule = "O8.4"
@@ -218,7 +253,7 @@ def stepwise(chk):
     name = get.qual
     loops = [n for n in ast.walk(get.node) if isinstance(n, ast.For)]
     if len(loops) != 1:
-        chk.undecided(rule, name, "get_rule is not a single loop", node=get.node)
+        first_match_comprehension(chk, rule, get)
     else:
         loop = loops[0]
         it = Interp(prog, get, unroll=1)
@@ -377,12 +412,39 @@ def switch(chk):
     chk.count(len(outs))
     DEFAULT = ("attr", SELF, slots.attr_from_param(prog, prog.cls(SWITCH), "default"))
     n_checked = 0
+    SLAVES_ATTR = None
+    try:
+        SLAVES_ATTR = ("attr", SELF, slots.attr_from_expr(prog, prog.cls(SWITCH), lambda v, t: "slaves" in t, "slave table"))
+    except Undecided:
+        pass
     for o in outs:
         if o.kind not in ("normal", "return"):
             chk.bad(rule, name, "regulate ends by %s" % o.kind, node=fi.node, stmt="exit")
             ok = False
             continue
         iters = [e for e in o.path.events if e[0] == "loop-iter"]
+        if not iters:
+            regs0 = [e for e in o.path.events if e[0] == "call" and e[1][1][0] == "attr" and e[1][1][2] == "regulate" and e[1][1][1] != SELF]
+            if len(regs0) == 1:
+                ch = strip_sites(regs0[0][1][1][1])
+                # last element of  [default] + matching   /   [default, *matching]
+                seq = ch[1] if ch[0] == "sub" and ch[2] == ("const", -1) else None
+                parts = None
+                if seq is not None and seq[0] == "binop" and seq[1] == "+":
+                    parts = (seq[2], seq[3])
+                elif seq is not None and seq[0] == "list" and len(seq[1]) == 2 and seq[1][1][0] == "star":
+                    parts = (("list", (seq[1][0],)), seq[1][1][1])
+                if parts and parts[0] == ("list", (DEFAULT,)) and parts[1][0] == "comp" and len(parts[1][3]) == 1:
+                    comp = parts[1]
+                    tgt, src, conds = comp[3][0]
+                    good = tgt[0] == "tuple" and len(tgt[1]) == 2 and comp[2] == tgt[1][1] and src == SLAVES_ATTR and list(conds) == [("cmp", "<=", tgt[1][0], TDEM)]
+                    chk.count()
+                    if good and list(regs0[0][1][2]) == [INTERVAL]:
+                        n_checked += 3
+                        continue
+                    chk.bad(rule, name, "the controller is chosen as %s: not the slave with the greatest threshold <= demand, else the default" % show(ch), node=fi.node, stmt="selection-comprehension")
+                    ok = False
+                    continue
         regs = [e for e in o.path.events if e[0] == "call" and e[1][1][0] == "attr" and e[1][1][2] == "regulate" and e[1][1][1] != SELF]
         if len(regs) != 1:
             chk.bad(rule, name, "a step delegates to %d controllers (required: exactly one)" % len(regs), node=fi.node, stmt="delegate-count")
@@ -459,6 +521,17 @@ def switch(chk):
         ok2 = False
     if vals - {"target"}:
         chk.bad(rule, init.qual, "controllers are re-targeted to %s instead of the switch's target" % sorted(vals), node=init.node, stmt="retarget-value")
+        ok2 = False
+    body = init.node.body
+    val_idx = [i for i, st in enumerate(body) if isinstance(st, ast.Expr) and isinstance(st.value, ast.Call) and util.dotted(st.value.func) in ("enforce", "utility.enforce") and ".target" in util.unparse(st.value.args[0] if st.value.args else st.value)]
+    ret_idx = [i for i, st in enumerate(body) if any(r in list(ast.walk(st)) for r in retarget)]
+    asserts = [i for i, st in enumerate(body) if isinstance(st, ast.Assert) and ".target" in util.unparse(st.test)]
+    val_idx += asserts
+    if not val_idx:
+        chk.bad(rule, init.qual, "the constructor does not validate that the controllers are unbound or already bound to the switch's target", node=init.node, stmt="no-target-validation")
+        ok2 = False
+    elif ret_idx and min(ret_idx) < min(val_idx):
+        chk.bad(rule, init.qual, "the controllers are re-targeted BEFORE their targets are validated: the validation can never fail, a controller that is bound to another pool (or switch) is silently taken over and the other switch then regulates the wrong pool", node=body[min(ret_idx)], stmt="retarget-before-validation")
         ok2 = False
     if "% 2" not in src:
         chk.undecided(rule, init.qual, "pairing validation not recognised", node=init.node, aux=True)
